@@ -12,7 +12,7 @@
 From Coq Require Import List ZArith NArith Bool Arith.
 From EasyML Require Import Base.Sx Model.Shape Model.Tensor Model.TSource Model.ShapeIter
   Model.Transform Proofs.ShapeP Proofs.C01P Proofs.OdometerP Proofs.C09P Proofs.C13P Proofs.C13bP
-  Proofs.SwapLoopP.
+  Proofs.SwapLoopP Proofs.C13SymP Proofs.C09OwnedP Proofs.C13MutP.
 Import ListNotations.
 Open Scope N_scope.
 
@@ -101,6 +101,27 @@ Proof. exact @tensor_first_eq_view_first. Qed.
 Theorem C13_map_mut_eq_map : forall A (f : A -> A) (t : tensor A), tensor_map_mut f t = tensor_map f t.
 Proof. exact @tensor_map_mut_eq_map. Qed.
 
+(* map_mut_with_index: the sequential write loop through the mutable with-index iterator leaves
+   f(index, element) at every index (for any source family whose writes behave like a lens), and
+   on a Tensor it equals the allocating map_with_index *)
+Theorem C13_view_map_mut_with_index : forall A (f : list N -> A -> A) (P : tsrc A -> Prop),
+  (forall s idx v, P s -> in_range idx (lens_of (src_shape s)) ->
+     exists s', src_set s idx v = Some s' /\ P s' /\ src_shape s' = src_shape s /\
+                src_get s' idx = Some v /\
+                forall idx', in_range idx' (lens_of (src_shape s)) -> idx' <> idx ->
+                             src_get s' idx' = src_get s idx') ->
+  (forall s idx, P s -> in_range idx (lens_of (src_shape s)) -> exists v, src_get s idx = Some v) ->
+  forall s : tsrc A, P s -> lens_pos (lens_of (src_shape s)) ->
+  let s' := view_map_mut_with_index f s in
+  P s' /\ src_shape s' = src_shape s /\
+  forall x, in_range x (lens_of (src_shape s)) -> src_get s' x = option_map (f x) (src_get s x).
+Proof. exact @view_map_mut_with_index_spec. Qed.
+
+Theorem C13_map_mut_with_index_eq_map_with_index : forall A (f : list N -> A -> A) (t : tensor A),
+  tensor_inv t -> elements (t_shape t) <= usize_max ->
+  tensor_map_mut_with_index f t = tensor_map_with_index f t.
+Proof. exact @tensor_map_mut_with_index_eq. Qed.
+
 (* the square 2-D loop of reorder_mut with the two dimensions exchanged is the transposition,
    for every side length n *)
 Theorem C13_swap_loop_transposes : forall A (t : tensor A) a b n,
@@ -172,6 +193,33 @@ Theorem C13_similar_iff : forall A (eqb : A -> A -> bool) (l r : tsrc A),
               tensor_equality eqb l (TAccess r tbl) = true.
 Proof. exact @similarity_iff. Qed.
 
+(* ... equivalently: exactly when SOME accepted reordering of r's dimensions makes them equal
+   (such an ordering is necessarily l's name order) *)
+Theorem C13_similar_iff_some_reordering : forall A (eqb : A -> A -> bool) (l r : tsrc A),
+  NoDup (names_of (src_shape r)) ->
+  (tensor_similarity eqb l r = true <->
+   exists dims tbl, length dims = length (src_shape r) /\
+                    dm_new (names_of (src_shape r)) dims = Some tbl /\
+                    tensor_equality eqb l (TAccess r tbl) = true).
+Proof. exact @similarity_iff_some_reordering. Qed.
+
+(* similarity is symmetric (for sources meeting the TensorRef contract, with valid names) *)
+Theorem C13_similar_sym : forall A (eqb : A -> A -> bool),
+  (forall x y, eqb x y = true <-> x = y) ->
+  forall l r : tsrc A, src_total l -> src_total r ->
+  NoDup (names_of (src_shape l)) -> NoDup (names_of (src_shape r)) ->
+  length (src_shape l) = length (src_shape r) ->
+  tensor_similarity eqb l r = tensor_similarity eqb r l.
+Proof. exact @similarity_sym. Qed.
+
+(* a reordered (TensorAccess) view of a total source is total: in-range indexes of the view map
+   to in-range indexes of the source *)
+Theorem C13_access_total : forall A (s : tsrc A) req tbl,
+  NoDup (names_of (src_shape s)) -> length req = length (src_shape s) ->
+  dm_new (names_of (src_shape s)) req = Some tbl ->
+  src_total s -> src_total (TAccess s tbl).
+Proof. exact @access_total. Qed.
+
 Theorem C13_eq_implies_similar : forall A (eqb : A -> A -> bool) (l r : tsrc A),
   tensor_equality eqb l r = true -> tensor_similarity eqb l r = true.
 Proof. exact @equality_implies_similarity. Qed.
@@ -213,6 +261,8 @@ Print Assumptions C13_tensor_elementwise_eq_view.
 Print Assumptions C13_tensor_elementwise_with_index_eq_view.
 Print Assumptions C13_first_eq_view_first.
 Print Assumptions C13_map_mut_eq_map.
+Print Assumptions C13_view_map_mut_with_index.
+Print Assumptions C13_map_mut_with_index_eq_map_with_index.
 Print Assumptions C13_swap_loop_transposes.
 Print Assumptions C13_in_place_eq_allocating.
 Print Assumptions C13_transpose_mut_eq_transpose.
@@ -223,5 +273,8 @@ Print Assumptions C13_eq_iff.
 Print Assumptions C13_eq_refl.
 Print Assumptions C13_eq_sym.
 Print Assumptions C13_similar_iff.
+Print Assumptions C13_similar_iff_some_reordering.
+Print Assumptions C13_similar_sym.
+Print Assumptions C13_access_total.
 Print Assumptions C13_eq_implies_similar.
 Print Assumptions C13_similar_refl.
